@@ -343,21 +343,41 @@ func c15Impl(in []int64) []int64 {
 			chunks = append(chunks, append([]byte{}, data...))
 		}
 		r := &c15Reader{chunks: chunks, fail: b&1 != 0, style: (b >> 1) & 3, one: append([]byte{}, d1...), err: c15Errs[int(b>>3)%len(c15Errs)]}
+		// without an injected error, three cases in five read from a standard in-memory reader that has already been
+		// partly consumed (a header read first, a Seek, a section): the digest is that of the UNREAD rest, whatever
+		// Size(), Len() or WriteTo the reader offers
+		var rd io.Reader = r
+		if b&1 == 0 {
+			switch (int64(len(d1)) + (b >> 1)) % 5 {
+			case 1:
+				sr := strings.NewReader("HDR!" + string(d1))
+				_, _ = sr.Read(make([]byte, 4))
+				rd = sr
+			case 2:
+				br := bytes.NewReader(append([]byte("0123456789"), d1...))
+				_, _ = br.Seek(10, io.SeekStart)
+				rd = br
+			case 3:
+				sec := io.NewSectionReader(bytes.NewReader(append([]byte("xy"), d1...)), 0, int64(len(d1)+2))
+				_, _ = sec.Read(make([]byte, 2))
+				rd = sec
+			}
+		}
 		var o []byte
 		var err error
 		switch a {
 		case 0:
-			o, err = hashz.Md5Stream(r)
+			o, err = hashz.Md5Stream(rd)
 		case 1:
-			o, err = hashz.Sha1Stream(r)
+			o, err = hashz.Sha1Stream(rd)
 		case 2:
-			o, err = hashz.Sha224Stream(r)
+			o, err = hashz.Sha224Stream(rd)
 		case 3:
-			o, err = hashz.Sha256Stream(r)
+			o, err = hashz.Sha256Stream(rd)
 		case 4:
-			o, err = hashz.Sha384Stream(r)
+			o, err = hashz.Sha384Stream(rd)
 		default:
-			o, err = hashz.Sha512Stream(r)
+			o, err = hashz.Sha512Stream(rd)
 		}
 		if err != nil {
 			return []int64{1, B(err == r.err && o == nil), 1, 1}
